@@ -11,14 +11,14 @@ and six ways a user produces a member of it (all yield a callable whose only non
     method    the bound method of an instance of ONE small class holding (c, p, e)
     callable  an instance of ONE small class with __call__
 
-`Family(producer, recip, tag)` is one *source location*: a namespace obtained by executing the source text of the general
+`Family(producer, recip, slot)` is one *source location*: a namespace obtained by executing the source text of the general
 function / factory / class once.  Every member asked from the same Family is a SIBLING (same general function, same
 factory and code object, same class); members of different Families share nothing, not even equal code objects: the
-definitions carry the tag in their names and sit on tag-specific line numbers, the way two definitions at different
-places of a user's script do.  This makes a history "fresh" in a long-lived worker process: none of the function,
+definitions carry the slot number in their names and sit on slot-specific line numbers, the way two definitions at
+different places of a user's script do.  This makes a history "fresh" in a long-lived worker process: none of the function,
 code or class objects of a fresh Family has ever been shown to the library in this process - unless the very same cell
 was evaluated there before, in which case the same sequence of offers is repeated from its start."""
-import zlib
+import ast
 
 PRODUCERS = ["lambda", "def", "partial", "factory", "method", "callable"]
 PRODUCER_TEXT = {"lambda": "written-out lambda", "def": "def function", "partial": "functools.partial of a general function",
@@ -39,13 +39,14 @@ def reference(recip, c, p, e):
 
 
 class Family:
-    def __init__(self, producer, recip, tag):
+    def __init__(self, producer, recip, slot, tag=""):
+        """slot: non-negative integer, unique to this family in the whole check (it fixes the names and the source
+        lines of the definitions, hence the identity of the code objects)."""
         if producer not in PRODUCERS:
             raise ValueError(producer)
         self.producer, self.recip, self.tag = producer, bool(recip), tag
-        h = zlib.crc32(tag.encode())
-        self.uid = "%08x" % h
-        self.line = 1 + h % 1999          # tag-specific source line of the definitions
+        self.uid = "%d" % slot
+        self.line = 20 * int(slot)        # slot-specific source lines of the definitions (20 lines per family)
         self.ns = {}
         self.count = 0
         u = self.uid
@@ -61,8 +62,9 @@ class Family:
                        "    def __call__(self, s):\n        return %s\n" % (u, expr(self.recip, "self.c", "self.p", "self.e")))
 
     def _exec(self, src, extra_lines=0):
-        code = compile("\n" * (self.line + extra_lines) + src, "<C10 user script %s>" % self.tag, "exec")
-        exec(code, self.ns)
+        tree = ast.parse(src)
+        ast.increment_lineno(tree, self.line + extra_lines)
+        exec(compile(tree, "<C10 user script %s>" % self.tag, "exec"), self.ns)
 
     def member(self, c, p, e):
         """The member g(.; c, p, e), produced the way this family's producer says."""
